@@ -22,9 +22,10 @@ Definition oid_wf (arcs: list N) : bool :=
 (* a REAL value of the model proper (RFloat stands for values that went through a Python float) *)
 Definition real_wf (r: real) : bool := match r with RFloat => false | _ => true end.
 
-(* [e]: is the valueless CHOICE object (VChoice (length alts) VNull) tolerated, and only directly
-   under a tag ([tg]): the decoders that support the indefinite form return it for  a0 80 00 00 *)
-Fixpoint val_ofx (e: bool) (tg: bool) (T: ty) (v: val) {struct T} : bool :=
+(* v is a well-formed value of T: right constructor at every level, one slot per declared
+   component, every mandatory component present, a CHOICE holds exactly one of its alternatives,
+   list elements are values of the element type *)
+Fixpoint val_of (T: ty) (v: val) {struct T} : bool :=
   match T with
   | TBool => match v with VBool _ => true | _ => false end
   | TInt | TEnum => match v with VInt _ => true | _ => false end
@@ -43,7 +44,7 @@ Fixpoint val_ofx (e: bool) (tg: bool) (T: ty) (v: val) {struct T} : bool :=
              | [], [] => true
              | (p, t) :: fs', ov :: vs' =>
                  (match ov with
-                  | Some x => val_ofx e false t x
+                  | Some x => val_of t x
                   | None => match p with Req => false | _ => true end
                   end) && go fs' vs'
              | _, _ => false
@@ -51,26 +52,20 @@ Fixpoint val_ofx (e: bool) (tg: bool) (T: ty) (v: val) {struct T} : bool :=
       | _ => false
       end
   | TSeqOf t | TSetOf t =>
-      match v with VList xs => forallb (val_ofx e false t) xs | _ => false end
+      match v with VList xs => forallb (val_of t) xs | _ => false end
   | TChoice alts =>
       match v with
       | VChoice i x =>
           (fix go (alts: list ty) (k: nat) : bool :=
              match alts, k with
-             | a :: _, O => val_ofx e false a x
+             | a :: _, O => val_of a x
              | _ :: r, S k' => go r k'
-             | [], O => e && tg && match x with VNull => true | _ => false end
-             | [], S _ => false
+             | [], _ => false
              end) alts i
       | _ => false
       end
-  | TImp _ x | TExp _ x => val_ofx e true x v
+  | TImp _ x | TExp _ x => val_of x v
   end.
-
-(* v is a well-formed value of T: right constructor at every level, one slot per declared
-   component, every mandatory component present, a CHOICE holds exactly one of its alternatives,
-   list elements are values of the element type *)
-Definition val_of (T: ty) (v: val) : bool := val_ofx false false T v.
 
 (* the same, presented with list functions *)
 Definition fields_ok (P: ty -> val -> bool) : list (presence * ty) -> list (option val) -> bool :=
@@ -85,25 +80,15 @@ Definition fields_ok (P: ty -> val -> bool) : list (presence * ty) -> list (opti
     | _, _ => false
     end.
 
-Lemma val_ofx_seq e tg fs vs : val_ofx e tg (TSeq fs) (VRec vs) = fields_ok (val_ofx e false) fs vs.
+Lemma val_of_seq fs vs : val_of (TSeq fs) (VRec vs) = fields_ok val_of fs vs.
 Proof. reflexivity. Qed.
-Lemma val_ofx_set e tg fs vs : val_ofx e tg (TSet fs) (VRec vs) = fields_ok (val_ofx e false) fs vs.
+Lemma val_of_set fs vs : val_of (TSet fs) (VRec vs) = fields_ok val_of fs vs.
 Proof. reflexivity. Qed.
 
 Definition is_wrapped (T: ty) : bool := match T with TImp _ _ | TExp _ _ => true | _ => false end.
 
-Lemma val_ofx_base : forall T e tg v, val_ofx e tg T v = val_ofx e (tg || is_wrapped T) (base_of T) v.
-Proof.
-  induction T using ty_ind'; intros e tg v; cbn [base_of is_wrapped]; rewrite ?Bool.orb_false_r; try reflexivity.
-  - cbn [val_ofx]. rewrite IHT. rewrite Bool.orb_true_r. cbn [orb]. reflexivity.
-  - cbn [val_ofx]. rewrite IHT. rewrite Bool.orb_true_r. cbn [orb]. reflexivity.
-Qed.
-
-(* the flag matters for CHOICE only *)
-Lemma val_ofx_tg_irrelevant : forall T e tg tg' v,
-  (match T with TChoice _ => False | _ => True end) -> is_wrapped T = false ->
-  val_ofx e tg T v = val_ofx e tg' T v.
-Proof. intros T e tg tg' v HT HW. destruct T; try reflexivity; try contradiction; discriminate. Qed.
+Lemma val_of_base : forall T v, val_of T v = val_of (base_of T) v.
+Proof. induction T using ty_ind'; intros v; cbn [base_of]; try reflexivity; cbn [val_of]; apply IHT. Qed.
 
 Fixpoint cdepth (v: val) : nat := match v with VChoice _ x => S (cdepth x) | _ => O end.
 
@@ -226,10 +211,8 @@ Definition in_tmap (m: tmap) (T: ty) : Prop :=
 Section Good.
   Variable c : codec.
 
-  Definition vo (T: ty) (v: val) : bool := val_ofx (support_indef c) false T v.
-
   Definition dv_ok (n: nat) (T: ty) (v: val) : Prop :=
-    (cdepth v <= n)%nat /\ (frag T = true -> vo T v = true).
+    (cdepth v <= n)%nat /\ (frag T = true -> val_of T v = true).
 
   Definition gd (n: nat) (P: ty -> Prop) (ae sfun: bool) (d: dval) : Prop :=
     match d with
@@ -302,7 +285,7 @@ Section Good.
     intros Hf H. apply create_inv in H. subst d. cbn [good gd]. split; [reflexivity|].
     unfold scalar_fits in Hf. split.
     - destruct (base_of T); destruct v; cbn [cdepth]; try lia; discriminate.
-    - intros _. unfold vo. rewrite val_ofx_base.
+    - intros _. rewrite val_of_base.
       destruct (base_of T); destruct v; try discriminate; try reflexivity; exact Hf.
   Qed.
 End Good.
@@ -321,10 +304,10 @@ Section Scalars.
   Variable lf : nat.
 
   Lemma integer_good n T proto ts l s d s' ae sfun : (forall z, scalar_fits T (VInt z) = true) ->
-    resume (dec_integer lf (Some T) proto ts l) s = inr (Ok d, s') -> good c n (STy T) ae sfun d.
+    resume (dec_integer lf (Some T) proto ts l) s = inr (Ok d, s') -> good n (STy T) ae sfun d.
   Proof.
     intros Hf H. unfold dec_integer in H. destruct (negb (tag0_simple ts)); [dead H|].
-    binv H. apply (create_good c n _ _ _ _ _ _ _ ae sfun (Hf _) H).
+    binv H. apply (create_good n _ _ _ _ _ _ _ ae sfun (Hf _) H).
   Qed.
 
   Lemma match_bool_octet {A} (x: N) (r: bytes) (P Q R: A) :
@@ -337,20 +320,20 @@ Section Scalars.
   Qed.
 
   Lemma bool_cer_good n T ts l s d s' ae sfun : (forall z, scalar_fits T (VInt z) = true) ->
-    resume (dec_bool_cer lf (Some T) ts l) s = inr (Ok d, s') -> good c n (STy T) ae sfun d.
+    resume (dec_bool_cer lf (Some T) ts l) s = inr (Ok d, s') -> good n (STy T) ae sfun d.
   Proof.
     intros Hf H. unfold dec_bool_cer in H. destruct (negb (N.eqb l 1)); [dead H|].
     binv H. destruct a as [|x r]; [dead H|]. rewrite match_bool_octet in H.
     destruct r; [|dead H]. destruct (N.eqb x 255); [|destruct (N.eqb x 0); [|dead H]].
-    - apply (create_good c n _ _ _ _ _ _ _ ae sfun (Hf _) H).
-    - apply (create_good c n _ _ _ _ _ _ _ ae sfun (Hf _) H).
+    - apply (create_good n _ _ _ _ _ _ _ ae sfun (Hf _) H).
+    - apply (create_good n _ _ _ _ _ _ _ ae sfun (Hf _) H).
   Qed.
 
   Lemma null_good n T ts l s d s' ae sfun : scalar_fits T VNull = true ->
-    resume (dec_null lf (Some T) ts l) s = inr (Ok d, s') -> good c n (STy T) ae sfun d.
+    resume (dec_null lf (Some T) ts l) s = inr (Ok d, s') -> good n (STy T) ae sfun d.
   Proof.
     intros Hf H. unfold dec_null in H. destruct (negb (tag0_simple ts)); [dead H|].
-    binv H. destruct a; [|dead H]. apply (create_good c n _ _ _ _ _ _ _ ae sfun Hf H).
+    binv H. destruct a; [|dead H]. apply (create_good n _ _ _ _ _ _ _ ae sfun Hf H).
   Qed.
 
   Lemma dec_oid_wf b a : dec_oid b = Ok a -> oid_wf a = true.
@@ -380,21 +363,21 @@ Section Scalars.
   Qed.
 
   Lemma oid_good n T ts l s d s' ae sfun : (forall a, oid_wf a = true -> scalar_fits T (VOid a) = true) ->
-    resume (dec_oid_v lf (Some T) ts l) s = inr (Ok d, s') -> good c n (STy T) ae sfun d.
+    resume (dec_oid_v lf (Some T) ts l) s = inr (Ok d, s') -> good n (STy T) ae sfun d.
   Proof.
     intros Hf H. unfold dec_oid_v in H. destruct (negb (tag0_simple ts)); [dead H|].
-    binv H. binv H. apply lift_inv in Ha0. apply (create_good c n _ _ _ _ _ _ _ ae sfun (Hf _ (dec_oid_wf _ _ Ha0)) H).
+    binv H. binv H. apply lift_inv in Ha0. apply (create_good n _ _ _ _ _ _ _ ae sfun (Hf _ (dec_oid_wf _ _ Ha0)) H).
   Qed.
 
   Lemma real_good n T ts l s d s' ae sfun : (forall a, real_wf a = true -> scalar_fits T (VReal a) = true) ->
-    resume (dec_real_v lf (Some T) ts l) s = inr (Ok d, s') -> good c n (STy T) ae sfun d.
+    resume (dec_real_v lf (Some T) ts l) s = inr (Ok d, s') -> good n (STy T) ae sfun d.
   Proof.
     intros Hf H. unfold dec_real_v in H. destruct (negb (tag0_simple ts)); [dead H|].
-    binv H. binv H. apply lift_inv in Ha0. apply (create_good c n _ _ _ _ _ _ _ ae sfun (Hf _ (dec_real_wf _ _ Ha0)) H).
+    binv H. binv H. apply lift_inv in Ha0. apply (create_good n _ _ _ _ _ _ _ ae sfun (Hf _ (dec_real_wf _ _ Ha0)) H).
   Qed.
 
   Lemma collector_good n sp len s d s' ae :
-    resume (collector lf len) s = inr (Ok d, s') -> good c n sp ae true d.
+    resume (collector lf len) s = inr (Ok d, s') -> good n sp ae true d.
   Proof.
     unfold collector. destruct len as [l|]; intros H; binv H; cbn [resume] in H; inversion H; subst; destruct sp; reflexivity.
   Qed.
@@ -403,73 +386,74 @@ Section Scalars.
 
   Lemma octets_loop_good n T proto ts len start ae sfun : (forall b, scalar_fits T (VOcts b) = true) ->
     forall k acc s d s',
-    resume (octets_loop rec proto (Some T) ts len start k acc) s = inr (Ok d, s') -> good c n (STy T) ae sfun d.
+    resume (octets_loop rec proto (Some T) ts len start k acc) s = inr (Ok d, s') -> good n (STy T) ae sfun d.
   Proof.
     intros Hf. induction k as [|k IH]; intros acc s d s' H; cbn [octets_loop] in H; [dead H|].
     binv H. destruct (N.ltb (N.of_nat (a - start)) len).
     - binv H. destruct a0 as [T0 v0| |b0| |]; try dead H.
       + destruct v0; try dead H. apply (IH _ _ _ _ H).
       + apply (IH _ _ _ _ H).
-    - apply (create_good c n _ _ _ _ _ _ _ ae sfun (Hf _) H).
+    - apply (create_good n _ _ _ _ _ _ _ ae sfun (Hf _) H).
   Qed.
 
   Lemma octets_indef_loop_good n T proto ts ae sfun : (forall b, scalar_fits T (VOcts b) = true) ->
     forall k acc s d s',
-    resume (octets_indef_loop rec proto (Some T) ts k acc) s = inr (Ok d, s') -> good c n (STy T) ae sfun d.
+    resume (octets_indef_loop rec proto (Some T) ts k acc) s = inr (Ok d, s') -> good n (STy T) ae sfun d.
   Proof.
     intros Hf. induction k as [|k IH]; intros acc s d s' H; cbn [octets_indef_loop] in H; [dead H|].
     binv H. destruct a as [T0 v0| |b0| |]; try dead H.
     - destruct v0; try dead H. apply (IH _ _ _ _ H).
-    - apply (create_good c n _ _ _ _ _ _ _ ae sfun (Hf _) H).
+    - apply (create_good n _ _ _ _ _ _ _ ae sfun (Hf _) H).
     - apply (IH _ _ _ _ H).
   Qed.
 
   Lemma octets_good n T proto fl ts l sfun0 s d s' ae sfun : (forall b, scalar_fits T (VOcts b) = true) ->
-    resume (dec_octets rec lf proto fl (Some T) ts l sfun0) s = inr (Ok d, s') -> good c n (STy T) ae sfun d.
+    resume (dec_octets rec lf proto fl (Some T) ts l sfun0) s = inr (Ok d, s') -> good n (STy T) ae sfun d.
   Proof.
     intros Hf H. unfold dec_octets in H. destruct (tag0_simple ts).
-    - binv H. apply (create_good c n _ _ _ _ _ _ _ ae sfun (Hf _) H).
+    - binv H. apply (create_good n _ _ _ _ _ _ _ ae sfun (Hf _) H).
     - destruct (negb (df_constructed fl)); [dead H|]. binv H.
       apply (octets_loop_good n _ _ _ _ _ ae sfun Hf _ _ _ _ _ H).
   Qed.
 
   Lemma bits_loop_good n T ts len start ae sfun : (forall b, scalar_fits T (VBits b) = true) ->
     forall k acc s d s',
-    resume (bits_loop rec (Some T) ts len start k acc) s = inr (Ok d, s') -> good c n (STy T) ae sfun d.
+    resume (bits_loop rec (Some T) ts len start k acc) s = inr (Ok d, s') -> good n (STy T) ae sfun d.
   Proof.
     intros Hf. induction k as [|k IH]; intros acc s d s' H; cbn [bits_loop] in H; [dead H|].
     binv H. destruct (N.ltb (N.of_nat (a - start)) len).
     - binv H. binv H. apply (IH _ _ _ _ H).
-    - apply (create_good c n _ _ _ _ _ _ _ ae sfun (Hf _) H).
+    - apply (create_good n _ _ _ _ _ _ _ ae sfun (Hf _) H).
   Qed.
 
   Lemma bits_indef_loop_good n T ts ae sfun : (forall b, scalar_fits T (VBits b) = true) ->
     forall k acc s d s',
-    resume (bits_indef_loop rec (Some T) ts k acc) s = inr (Ok d, s') -> good c n (STy T) ae sfun d.
+    resume (bits_indef_loop rec (Some T) ts k acc) s = inr (Ok d, s') -> good n (STy T) ae sfun d.
   Proof.
     intros Hf. induction k as [|k IH]; intros acc s d s' H; cbn [bits_indef_loop] in H; [dead H|].
     binv H. destruct a as [T0 v0| |b0| |].
     - binv H. apply (IH _ _ _ _ H).
-    - apply (create_good c n _ _ _ _ _ _ _ ae sfun (Hf _) H).
+    - apply (create_good n _ _ _ _ _ _ _ ae sfun (Hf _) H).
     - binv H. apply (IH _ _ _ _ H).
     - binv H. apply (IH _ _ _ _ H).
     - binv H. apply (IH _ _ _ _ H).
   Qed.
 
   Lemma bits_good n T fl ts l sfun s d s' ae : (forall b, scalar_fits T (VBits b) = true) ->
-    resume (dec_bits rec lf fl (Some T) ts l sfun) s = inr (Ok d, s') -> good c n (STy T) ae sfun d.
+    resume (dec_bits rec lf fl (Some T) ts l sfun) s = inr (Ok d, s') -> good n (STy T) ae sfun d.
   Proof.
     intros Hf H. unfold dec_bits in H. destruct sfun.
     - apply (collector_good n _ _ _ _ _ ae H).
-    - destruct (N.eqb l 0); [dead H|]. destruct (tag0_simple ts).
-      + binv H. destruct (N.ltb 7 a); [dead H|]. binv H. binv H.
-        apply (create_good c n _ _ _ _ _ _ _ ae false (Hf _) H).
+    - destruct (tag0_simple ts).
+      + destruct (N.eqb l 0); [dead H|].
+        binv H. destruct (N.ltb 7 a); [dead H|]. binv H. binv H.
+        apply (create_good n _ _ _ _ _ _ _ ae false (Hf _) H).
       + destruct (negb (df_constructed fl)); [dead H|]. binv H.
         apply (bits_loop_good n _ _ _ _ ae false Hf _ _ _ _ _ H).
   Qed.
 
   Lemma bits_indef_good n T ts sfun s d s' ae : (forall b, scalar_fits T (VBits b) = true) ->
-    resume (dec_bits_indef rec lf (Some T) ts sfun) s = inr (Ok d, s') -> good c n (STy T) ae sfun d.
+    resume (dec_bits_indef rec lf (Some T) ts sfun) s = inr (Ok d, s') -> good n (STy T) ae sfun d.
   Proof.
     intros Hf H. unfold dec_bits_indef in H. destruct sfun.
     - apply (collector_good n _ _ _ _ _ ae H).
@@ -479,28 +463,28 @@ Section Scalars.
   (* ---------------- ANY ---------------- *)
 
   Lemma any_good n T ts l sfun s d s' ae : (forall b, scalar_fits T (VAny b) = true) ->
-    resume (dec_any lf (Some T) ts l sfun) s = inr (Ok d, s') -> good c n (STy T) ae sfun d.
+    resume (dec_any lf (Some T) ts l sfun) s = inr (Ok d, s') -> good n (STy T) ae sfun d.
   Proof.
     intros Hf H. unfold dec_any in H. cbv zeta in H. binv H. binv H. destruct sfun.
     - cbn [resume] in H. inversion H; subst. reflexivity.
-    - apply (create_good c n _ _ _ _ _ _ _ ae false (Hf _) H).
+    - apply (create_good n _ _ _ _ _ _ _ ae false (Hf _) H).
   Qed.
 
   Lemma any_indef_loop_good n T ts sfun tagged ae : (forall b, scalar_fits T (VAny b) = true) ->
     forall k acc s d s',
-    resume (any_indef_loop rec (Some T) ts sfun tagged k acc) s = inr (Ok d, s') -> good c n (STy T) ae sfun d.
+    resume (any_indef_loop rec (Some T) ts sfun tagged k acc) s = inr (Ok d, s') -> good n (STy T) ae sfun d.
   Proof.
     intros Hf. induction k as [|k IH]; intros acc s d s' H; cbn [any_indef_loop] in H; [dead H|].
     binv H. destruct a as [T0 v0| |b0| |]; try dead H.
     - destruct v0; try dead H. apply (IH _ _ _ _ H).
     - cbv zeta in H. destruct sfun.
       + cbn [resume] in H. inversion H; subst. reflexivity.
-      + apply (create_good c n _ _ _ _ _ _ _ ae false (Hf _) H).
+      + apply (create_good n _ _ _ _ _ _ _ ae false (Hf _) H).
     - apply (IH _ _ _ _ H).
   Qed.
 
   Lemma any_indef_good n T ts sfun s d s' ae : (forall b, scalar_fits T (VAny b) = true) ->
-    resume (dec_any_indef rec lf (Some T) ts sfun) s = inr (Ok d, s') -> good c n (STy T) ae sfun d.
+    resume (dec_any_indef rec lf (Some T) ts sfun) s = inr (Ok d, s') -> good n (STy T) ae sfun d.
   Proof.
     intros Hf H. unfold dec_any_indef in H. cbv zeta in H. binv H.
     apply (any_indef_loop_good n _ _ _ _ ae Hf _ _ _ _ _ H).
@@ -524,14 +508,14 @@ Section ListOf.
   Hypothesis Hrec : rec_good c lf rec.
 
   Lemma listof_loop_good m T t len start ae sfun : (base_of T = TSeqOf t \/ base_of T = TSetOf t) ->
-    forall k acc s d s', (frag t = true -> forallb (vo c t) acc = true) ->
-    resume (listof_loop rec T t len start k acc) s = inr (Ok d, s') -> good c m (STy T) ae sfun d.
+    forall k acc s d s', (frag t = true -> forallb (val_of t) acc = true) ->
+    resume (listof_loop rec T t len start k acc) s = inr (Ok d, s') -> good m (STy T) ae sfun d.
   Proof.
     intros HB. 
-    assert (Hfin: forall acc, (frag t = true -> forallb (vo c t) acc = true) -> good c m (STy T) ae sfun (DV T (VList acc))).
+    assert (Hfin: forall acc, (frag t = true -> forallb (val_of t) acc = true) -> good m (STy T) ae sfun (DV T (VList acc))).
     { intros acc Hacc. cbn [good gd]. split; [reflexivity|]. split; [cbn [cdepth]; lia|].
-      intros HF. rewrite frag_base in HF. unfold vo. rewrite val_ofx_base.
-      destruct HB as [HB|HB]; rewrite HB in *; cbn [frag] in HF; cbn [val_ofx]; apply (Hacc HF). }
+      intros HF. rewrite frag_base in HF. rewrite val_of_base.
+      destruct HB as [HB|HB]; rewrite HB in *; cbn [frag] in HF; cbn [val_of]; apply (Hacc HF). }
     induction k as [|k IH]; intros acc s d s' Hacc H; cbn [listof_loop] in H; [dead H|].
     binv H. cbv zeta in H.
     destruct (negb match len with Some l => N.of_nat (a - start) <? l | None => true end).
@@ -545,7 +529,7 @@ Section ListOf.
   Qed.
 
   Lemma listof_good m T t len ae sfun s d s' : (base_of T = TSeqOf t \/ base_of T = TSetOf t) ->
-    resume (dec_listof rec lf T t len) s = inr (Ok d, s') -> good c m (STy T) ae sfun d.
+    resume (dec_listof rec lf T t len) s = inr (Ok d, s') -> good m (STy T) ae sfun d.
   Proof.
     intros HB H. unfold dec_listof in H. binv H.
     apply (listof_loop_good m _ _ _ _ ae sfun HB _ [] _ _ _ (fun _ => eq_refl) H).
@@ -731,31 +715,19 @@ Proof.
 Qed.
 
 (* a well-formed CHOICE value names one of the alternatives and holds a value of it *)
-Lemma choice_go_inv e tg (x: val) : forall alts i,
-  (fix go (alts: list ty) (k: nat) : bool :=
-     match alts, k with
-     | a :: _, O => val_ofx e false a x
-     | _ :: r, S k' => go r k'
-     | [], O => e && tg && match x with VNull => true | _ => false end
-     | [], S _ => false
-     end) alts i = true ->
-  (exists a, nth_error alts i = Some a /\ val_ofx e false a x = true)
-  \/ (i = length alts /\ e = true /\ tg = true /\ x = VNull).
+Lemma choice_go_inv (x: val) : forall alts i,
+  val_of (TChoice alts) (VChoice i x) = true ->
+  exists a, nth_error alts i = Some a /\ val_of a x = true.
 Proof.
-  induction alts as [|a r IH]; intros [|i] H.
-  - right. apply andb_prop in H. destruct H as [H1 H2]. apply andb_prop in H1. destruct H1 as [H0 H1].
-    destruct x; try discriminate. auto.
-  - discriminate.
-  - left. exists a. split; [reflexivity|exact H].
-  - destruct (IH i H) as [(a0 & Hn & Hv)|(Hi & He & Ht & Hx)].
-    + left. exists a0. split; [exact Hn|exact Hv].
-    + right. cbn [length]. auto.
+  cbn [val_of]. induction alts as [|a r IH]; intros [|i] H; try discriminate.
+  - exists a. split; [reflexivity|exact H].
+  - apply (IH i H).
 Qed.
 
-Lemma choice_go_intro e tg (x: val) a : forall alts i, nth_error alts i = Some a -> val_ofx e false a x = true ->
-  val_ofx e tg (TChoice alts) (VChoice i x) = true.
+Lemma choice_go_intro (x: val) a : forall alts i, nth_error alts i = Some a -> val_of a x = true ->
+  val_of (TChoice alts) (VChoice i x) = true.
 Proof.
-  cbn [val_ofx]. induction alts as [|a0 r IH]; intros [|i] Hn Hv; try discriminate.
+  cbn [val_of]. induction alts as [|a0 r IH]; intros [|i] Hn Hv; try discriminate.
   - cbn [nth_error] in Hn. inversion Hn; subst. exact Hv.
   - apply (IH i Hn Hv).
 Qed.
@@ -764,7 +736,7 @@ Lemma nth_error_nth {A} (l: list A) i a d : nth_error l i = Some a -> nth i l d 
 Proof. revert i. induction l as [|x l IH]; intros [|i] H; try discriminate; cbn in *; [inversion H; reflexivity|apply IH; exact H]. Qed.
 
 (* the effective tag set of a well-formed value is one of the keys of its type's tag map *)
-Lemma ets_key e : forall fuel T v, (cdepth v < fuel)%nat -> val_ofx e false T v = true ->
+Lemma ets_key : forall fuel T v, (cdepth v < fuel)%nat -> val_of T v = true ->
   hask (effective_tagset fuel T v) (tm_present (tagmap_of T)) = true.
 Proof.
   induction fuel as [|f IH]; intros T v Hd Hv; [lia|].
@@ -774,8 +746,7 @@ Proof.
   destruct T; try (cbn [effective_tagset]; apply Hplain; reflexivity).
   - (* CHOICE *)
     destruct v; try discriminate Hv. cbn [effective_tagset].
-    cbn [val_ofx] in Hv. apply choice_go_inv in Hv.
-    destruct Hv as [(a & Hn & Hv)|(_ & _ & Ht & _)]; [|discriminate].
+    apply choice_go_inv in Hv. destruct Hv as (a & Hn & Hv).
     rewrite (nth_error_nth _ _ _ TNull Hn).
     cbn [cdepth] in Hd. assert (Hd': (cdepth v < f)%nat) by lia.
     pose proof (IH a v Hd' Hv) as Hk.
@@ -831,16 +802,16 @@ Proof.
 Qed.
 
 (* where a decoded member is put: at the member whose type it was decoded with *)
-Lemma place_sound e lf u L Tc vc k :
+Lemma place_sound lf u L Tc vc k :
   forallb frag L = true -> forallb map_member_ok L = true ->
-  in_tmap (fields_tagmap u L) Tc -> (cdepth vc <= lf)%nat -> (frag Tc = true -> val_ofx e false Tc vc = true) ->
-  position_by_type L (effective_tagset (S lf) Tc vc) = Ok k -> nth_error L k = Some Tc /\ val_ofx e false Tc vc = true.
+  in_tmap (fields_tagmap u L) Tc -> (cdepth vc <= lf)%nat -> (frag Tc = true -> val_of Tc vc = true) ->
+  position_by_type L (effective_tagset (S lf) Tc vc) = Ok k -> nth_error L k = Some Tc /\ val_of Tc vc = true.
 Proof.
   intros Hfr Hok Hin Hd Hv Hp.
   pose proof (fields_tagmap_member _ _ _ Hok Hin) as HIn.
   rewrite forallb_forall in Hfr. specialize (Hv (Hfr _ HIn)).
   destruct (In_nth_error _ _ HIn) as [j Hj].
-  assert (Hk: hask (effective_tagset (S lf) Tc vc) (tm_present (tagmap_of Tc)) = true) by (apply (ets_key e); [lia|exact Hv]).
+  assert (Hk: hask (effective_tagset (S lf) Tc vc) (tm_present (tagmap_of Tc)) = true) by (apply ets_key; [lia|exact Hv]).
   unfold position_by_type in Hp. destruct (tag_to_pos L 0 []) as [m|] eqn:Em; [|discriminate].
   destruct (ttp_pos _ _ _ _ _ Em _ _ Hj Hk) as [_ Hm]. rewrite Hm in Hp. inversion Hp; subst. cbn [Nat.add]. auto.
 Qed.
@@ -914,15 +885,15 @@ Section Record.
 
   Lemma finish_good m T fs (is_set: bool) vs ae sfun s d s' :
     base_of T = (if is_set then TSet fs else TSeq fs) ->
-    (frag T = true -> slots_ok (vo c) fs vs = true) ->
+    (frag T = true -> slots_ok val_of fs vs = true) ->
     resume (if match fs with [] => true | _ => false end then Ret (DV T (VRec []))
             else if required_seen fs vs then Ret (DV T (VRec vs)) else Raise EMalformed) s = inr (Ok d, s') ->
-    good c m (STy T) ae sfun d.
+    good m (STy T) ae sfun d.
   Proof.
     intros HB Hs H.
-    assert (Hv: forall vs', (frag T = true -> fields_ok (vo c) fs vs' = true) -> good c m (STy T) ae sfun (DV T (VRec vs'))).
+    assert (Hv: forall vs', (frag T = true -> fields_ok val_of fs vs' = true) -> good m (STy T) ae sfun (DV T (VRec vs'))).
     { intros vs' Hf. cbn [good gd]. split; [reflexivity|]. split; [cbn [cdepth]; lia|]. intros HF.
-      unfold vo. rewrite val_ofx_base, HB. destruct is_set; [rewrite val_ofx_set|rewrite val_ofx_seq]; apply (Hf HF). }
+      rewrite val_of_base, HB. destruct is_set; [rewrite val_of_set|rewrite val_of_seq]; apply (Hf HF). }
     destruct fs as [|f fs'].
     - cbn [resume] in H. inversion H; subst. apply Hv. reflexivity.
     - destruct (required_seen (f :: fs') vs) eqn:E; [|dead H]. cbn [resume] in H. inversion H; subst.
@@ -935,9 +906,9 @@ Section Record.
     (is_set || negb (all_req fs) = true -> forallb (fun f => map_member_ok (snd f)) fs = true) ->
     (if is_set then Some (SMap (fields_tagmap true (map snd fs)))
      else seq_component_spec fs (negb is_set && forallb (fun f => is_req (fst f)) fs) idx) = Some sp' ->
-    good c lf sp' ae' false (DV Tc vc) ->
+    good lf sp' ae' false (DV Tc vc) ->
     seq_position lf fs is_set (negb is_set && forallb (fun f => is_req (fst f)) fs) idx Tc vc = Ok i ->
-    exists p t, nth_error fs i = Some (p, t) /\ vo c t vc = true.
+    exists p t, nth_error fs i = Some (p, t) /\ val_of t vc = true.
   Proof.
     intros Hfr Hmap Hsp Hg Hpos. unfold seq_position in Hpos.
     destruct is_set; cbn [negb andb orb] in *.
@@ -945,7 +916,7 @@ Section Record.
       inversion Hsp; subst sp'. cbn [good gd] in Hg. destruct Hg as [Hin [Hd Hv]].
       assert (HfrL: forallb frag (map snd fs) = true) by (rewrite forallb_map'; exact Hfr).
       assert (HmapL: forallb map_member_ok (map snd fs) = true) by (rewrite forallb_map'; apply Hmap; reflexivity).
-      destruct (place_sound _ _ _ _ _ _ _ HfrL HmapL Hin Hd Hv Hpos) as [Hn Hvo].
+      destruct (place_sound _ _ _ _ _ _ HfrL HmapL Hin Hd Hv Hpos) as [Hn Hvo].
       rewrite nth_error_map in Hn. destruct (nth_error fs i) as [[p t]|] eqn:En; [|discriminate].
       cbn [option_map snd] in Hn. inversion Hn; subst. exists p, Tc. auto.
     - (* SEQUENCE *)
@@ -965,7 +936,7 @@ Section Record.
           assert (HfrL: forallb frag (ambiguous_run (skipn idx fs)) = true) by (apply ambiguous_run_forall, forallb_skipn, Hfr).
           assert (HmapL: forallb map_member_ok (ambiguous_run (skipn idx fs)) = true)
             by (apply ambiguous_run_forall, forallb_skipn, Hmap; reflexivity).
-          destruct (place_sound _ _ _ _ _ _ _ HfrL HmapL Hin Hd Hv Ek) as [Hn Hvo].
+          destruct (place_sound _ _ _ _ _ _ HfrL HmapL Hin Hd Hv Ek) as [Hn Hvo].
           apply ambiguous_run_prefix in Hn. destruct Hn as [p' Hn]. rewrite nth_error_skipn in Hn.
           exists p', Tc. auto.
   Qed.
@@ -982,8 +953,8 @@ Section Record.
   Lemma record_loop_good m T fs (is_set: bool) len start ae sfun :
     base_of T = (if is_set then TSet fs else TSeq fs) ->
     forall k idx vs extra s d s',
-    (frag T = true -> slots_ok (vo c) fs vs = true) ->
-    resume (record_loop rec lf T fs is_set len start k idx vs extra) s = inr (Ok d, s') -> good c m (STy T) ae sfun d.
+    (frag T = true -> slots_ok val_of fs vs = true) ->
+    resume (record_loop rec lf T fs is_set len start k idx vs extra) s = inr (Ok d, s') -> good m (STy T) ae sfun d.
   Proof.
     intros HB. induction k as [|k IH]; intros idx vs extra s d s' Hs H; cbn [record_loop] in H; [dead H|].
     cbv zeta in H. binv H.
@@ -1028,7 +999,7 @@ Section Record.
 
   Lemma record_good m T fs (is_set: bool) len ae sfun s d s' :
     base_of T = (if is_set then TSet fs else TSeq fs) ->
-    resume (dec_record rec lf T fs is_set len) s = inr (Ok d, s') -> good c m (STy T) ae sfun d.
+    resume (dec_record rec lf T fs is_set len) s = inr (Ok d, s') -> good m (STy T) ae sfun d.
   Proof.
     intros HB H. unfold dec_record in H. cbv zeta in H. binv H.
     apply (record_loop_good m _ _ _ _ _ ae sfun HB _ _ _ _ _ _ _ (fun _ => slots_init _ _) H).
@@ -1039,14 +1010,6 @@ End Record.
 (* CHOICE                                                                                     *)
 (* ------------------------------------------------------------------------------------------ *)
 
-Lemma empty_choice_ofx e tg : forall alts k, val_ofx e tg (TChoice (alts)) (VChoice (k + length alts) VNull)
-  = match k with O => e && tg | S _ => false end.
-Proof.
-  cbn [val_ofx]. induction alts as [|a r IH]; intros k.
-  - cbn [length]. rewrite Nat.add_0_r. destruct k; [rewrite Bool.andb_true_r; reflexivity|reflexivity].
-  - cbn [length]. rewrite Nat.add_succ_r. apply IH.
-Qed.
-
 Section Choice.
   Variable c : codec.
   Variable rec : spec -> tagset -> option (option N) -> bool -> bool -> proc dval.
@@ -1055,62 +1018,51 @@ Section Choice.
 
   Lemma choice_place_good T alts ae' d0 ae sfun s d s' :
     base_of T = TChoice alts ->
-    good c lf (SMap (fields_tagmap true alts)) ae' false d0 ->
-    resume (choice_place lf T alts d0) s = inr (Ok d, s') -> good c (S lf) (STy T) ae sfun d.
+    good lf (SMap (fields_tagmap true alts)) ae' false d0 ->
+    resume (choice_place lf T alts d0) s = inr (Ok d, s') -> good (S lf) (STy T) ae sfun d.
   Proof.
     intros HB Hg H. unfold choice_place in H. destruct d0 as [Tc vc| |b| |]; try dead H.
     binv H. apply lift_inv in Ha. cbn [resume] in H. inversion H; subst. clear H.
     cbn [good gd] in Hg. destruct Hg as [Hin [Hd Hv]].
     cbn [good gd]. split; [reflexivity|]. split; [cbn [cdepth]; lia|].
     intros HF. rewrite frag_base, HB in HF. cbn [frag] in HF. apply andb_prop in HF. destruct HF as [Hfr Hmap].
-    destruct (place_sound _ _ _ _ _ _ _ Hfr Hmap Hin Hd Hv Ha) as [Hn Hvo].
-    unfold vo. rewrite val_ofx_base, HB. apply (choice_go_intro _ _ _ _ _ _ Hn Hvo).
+    destruct (place_sound _ _ _ _ _ _ Hfr Hmap Hin Hd Hv Ha) as [Hn Hvo].
+    rewrite val_of_base, HB. apply (choice_go_intro _ _ _ _ Hn Hvo).
   Qed.
 
   Lemma choice_loop_good T alts ts (tagged: bool) ae sfun :
-    base_of T = TChoice alts -> ts <> [] -> support_indef c = true -> (tagged = true -> is_wrapped T = true) ->
+    base_of T = TChoice alts -> ts <> [] -> support_indef c = true ->
     forall k cur s d s',
-    (match cur with None => True | Some x => good c (S lf) (STy T) ae sfun x end) ->
-    resume (choice_loop rec lf T alts ts tagged k cur) s = inr (Ok d, s') -> good c (S lf) (STy T) ae sfun d.
+    (match cur with None => True | Some x => good (S lf) (STy T) ae sfun x end) ->
+    resume (choice_loop rec lf T alts ts tagged k cur) s = inr (Ok d, s') -> good (S lf) (STy T) ae sfun d.
   Proof.
-    intros HB Hts Hind Htag. induction k as [|k IH]; intros cur s d s' Hcur H; cbn [choice_loop] in H; [dead H|].
+    intros HB Hts Hind. induction k as [|k IH]; intros cur s d s' Hcur H; cbn [choice_loop] in H; [dead H|].
     cbv zeta in H. binv H.
-    assert (Hg: good c lf (SMap (fields_tagmap true alts)) tagged false a).
+    assert (Hg: good lf (SMap (fields_tagmap true alts)) tagged false a).
     { destruct tagged.
       - apply (Hrec _ _ _ _ _ _ _ _ (pre_none c []) Ha).
       - refine (Hrec _ _ _ _ _ _ _ _ _ Ha). split; [right; exact Hts|intros _; exact Hind]. }
     destruct a as [Tc vc| |b| |].
     - binv H. pose proof (choice_place_good _ _ _ _ ae sfun _ _ _ HB Hg Ha0) as Hx.
       destruct tagged; [apply (IH (Some _) _ _ _ Hx H)|]. cbn [resume] in H. inversion H; subst. exact Hx.
-    - destruct tagged; [|cbn [good gd] in Hg; discriminate].
-      destruct cur as [x|]; cbn [resume] in H; inversion H; subst; [exact Hcur|].
-      cbn [good gd]. split; [reflexivity|]. split; [cbn [cdepth]; lia|]. intros _.
-      unfold vo. rewrite val_ofx_base, HB, (Htag eq_refl), Hind. cbn [orb].
-      apply (empty_choice_ofx true true alts 0).
+    - destruct cur as [x|]; [|dead H]. cbn [resume] in H. inversion H; subst. exact Hcur.
     - cbn [good gd] in Hg. discriminate.
     - cbn [good gd] in Hg. contradiction.
     - cbn [good gd] in Hg. contradiction.
   Qed.
 
-  Lemma tagged_is_wrapped T alts ts : base_of T = TChoice alts -> ts <> [] ->
-    tagset_eqb (tagset_of' T) ts = true -> is_wrapped T = true.
-  Proof.
-    intros HB Hts He. destruct T; cbn [base_of] in HB; try discriminate; try reflexivity.
-    destruct ts; [contradiction|]. discriminate.
-  Qed.
-
   Lemma choice_good T alts ts len ae sfun s d s' :
     base_of T = TChoice alts -> ts <> [] -> (len = None -> support_indef c = true) ->
-    resume (dec_choice rec lf T alts ts len) s = inr (Ok d, s') -> good c (S lf) (STy T) ae sfun d.
+    resume (dec_choice rec lf T alts ts len) s = inr (Ok d, s') -> good (S lf) (STy T) ae sfun d.
   Proof.
     intros HB Hts Hind H. unfold dec_choice in H. cbv zeta in H. destruct len as [l|].
     - binv H.
-      assert (Hg: good c lf (SMap (fields_tagmap true alts)) false false a).
+      assert (Hg: good lf (SMap (fields_tagmap true alts)) false false a).
       { destruct (tagset_eqb (tagset_of' T) ts).
         - apply (Hrec _ _ _ _ _ _ _ _ (pre_none c []) Ha).
         - refine (Hrec _ _ _ _ _ _ _ _ _ Ha). split; [right; exact Hts|discriminate]. }
       apply (choice_place_good _ _ _ _ ae sfun _ _ _ HB Hg H).
-    - apply (choice_loop_good _ _ _ _ ae sfun HB Hts (Hind eq_refl) (tagged_is_wrapped _ _ _ HB Hts) _ None _ _ _ I H).
+    - apply (choice_loop_good _ _ _ _ ae sfun HB Hts (Hind eq_refl) _ None _ _ _ I H).
   Qed.
 End Choice.
 
@@ -1131,28 +1083,28 @@ Section Call.
   Hypothesis Hrec : rec_good c lf rec.
 
   Lemma raw_loop_good sp ts ae sfun : forall k last s d s',
-    (last = DNoValue \/ (last <> DEoo /\ good c lf sp true false last)) ->
-    resume (raw_loop rec sp ts k last) s = inr (Ok d, s') -> good c lf sp ae sfun d.
+    (last = DNoValue \/ (last <> DEoo /\ good lf sp true false last)) ->
+    resume (raw_loop rec sp ts k last) s = inr (Ok d, s') -> good lf sp ae sfun d.
   Proof.
     induction k as [|k IH]; intros last s d s' Hl H; cbn [raw_loop] in H; [dead H|].
     binv H. pose proof (Hrec _ _ _ _ _ _ _ _ (pre_none c ts) Ha) as Hg.
-    assert (Hnext: a <> DEoo -> resume (raw_loop rec sp ts k a) s0 = inr (Ok d, s') -> good c lf sp ae sfun d).
+    assert (Hnext: a <> DEoo -> resume (raw_loop rec sp ts k a) s0 = inr (Ok d, s') -> good lf sp ae sfun d).
     { intros Hne H'. apply (IH a s0 d s'); [right; split; [exact Hne|exact Hg]|exact H']. }
     destruct a as [Tc vc| |b| |]; try (apply Hnext; [discriminate|exact H]).
     destruct Hl as [->|[Hne Hgl]]; [dead H|].
     assert (Hd: d = last) by (destruct last; cbn [resume] in H; inversion H; reflexivity). subst d.
-    apply (good_flags c _ _ _ _ _ _ Hne Hgl).
+    apply (good_flags _ _ _ _ _ _ Hne Hgl).
   Qed.
 
-  Lemma good_noeoo n sp ae sfun d : good c n sp false false d -> good c n sp ae sfun d.
+  Lemma good_noeoo n sp ae sfun d : good n sp false false d -> good n sp ae sfun d.
   Proof.
     destruct sp as [|T0|mp]; cbn [good]; auto; destruct d; cbn [gd]; auto; discriminate.
   Qed.
 
   Lemma raw_good sp ts len ae sfun s d s' :
-    resume (dec_raw rec lf sp ts len sfun) s = inr (Ok d, s') -> good c lf sp ae sfun d.
+    resume (dec_raw rec lf sp ts len sfun) s = inr (Ok d, s') -> good lf sp ae sfun d.
   Proof.
-    intros H. unfold dec_raw in H. destruct sfun; [apply (collector_good c lf lf _ _ _ _ _ ae H)|].
+    intros H. unfold dec_raw in H. destruct sfun; [apply (collector_good lf lf _ _ _ _ _ ae H)|].
     destruct len as [l|].
     - apply good_noeoo. apply (Hrec _ _ _ _ _ _ _ _ (pre_none c ts) H).
     - apply (raw_loop_good _ _ ae false _ _ _ _ _ (or_introl eq_refl) H).
@@ -1160,14 +1112,14 @@ Section Call.
 
   Lemma dec_value_good cd fl T ts len ae sfun s d s' :
     compat (key_of T) cd = true -> ts <> [] -> (len = None -> support_indef c = true) ->
-    resume (dec_value rec lf cd fl (Some T) ts len sfun) s = inr (Ok d, s') -> good c (S lf) (STy T) ae sfun d.
+    resume (dec_value rec lf cd fl (Some T) ts len sfun) s = inr (Ok d, s') -> good (S lf) (STy T) ae sfun d.
   Proof.
     intros Hc Hts Hind H. unfold key_of in Hc.
     pose proof (base_of_not_wrapped T) as Hnw.
     destruct (base_of T) eqn:HB; try discriminate Hnw; destruct cd; try discriminate Hc;
       unfold dec_value in H; cbv beta iota zeta in H; rewrite ?HB in H; destruct len as [l|]; try dead H.
-    all: try (destruct (negb (tag0_cons ts)); [dead H|]; destruct sfun; [apply (collector_good c lf (S lf) _ _ _ _ _ ae H)|]).
-    all: try (destruct sfun; [apply (collector_good c lf (S lf) _ _ _ _ _ ae H)|]).
+    all: try (destruct (negb (tag0_cons ts)); [dead H|]; destruct sfun; [apply (collector_good lf (S lf) _ _ _ _ _ ae H)|]).
+    all: try (destruct sfun; [apply (collector_good lf (S lf) _ _ _ _ _ ae H)|]).
     all: try solve [eapply integer_good; [|exact H]; intros; unfold scalar_fits; rewrite HB; reflexivity].
     all: try solve [eapply bool_cer_good; [|exact H]; intros; unfold scalar_fits; rewrite HB; reflexivity].
     all: try solve [eapply null_good; [|exact H]; intros; unfold scalar_fits; rewrite HB; reflexivity].
@@ -1198,7 +1150,7 @@ Section Call.
     cbn [resume] in H. inversion H; subst. eauto.
   Qed.
 
-  Lemma good_sty_smap n mp T ae sfun d : in_tmap mp T -> good c n (STy T) ae sfun d -> good c n (SMap mp) ae sfun d.
+  Lemma good_sty_smap n mp T ae sfun d : in_tmap mp T -> good n (STy T) ae sfun d -> good n (SMap mp) ae sfun d.
   Proof. intros Hin. cbn [good]. destruct d; cbn [gd]; auto. intros [-> Hd]. auto. Qed.
 
   Lemma tm_get_in mp ts T : tm_get mp ts = Ok (Some T) -> in_tmap mp T.
@@ -1212,7 +1164,7 @@ Section Call.
 
   Lemma dispatch_good sp ts len ae sfun s d s' :
     ts <> [] -> (len = None -> support_indef c = true) ->
-    resume (dispatch c rec lf sp ts len sfun) s = inr (Ok d, s') -> good c (S lf) sp ae sfun d.
+    resume (dispatch c rec lf sp ts len sfun) s = inr (Ok d, s') -> good (S lf) sp ae sfun d.
   Proof.
     intros Hts Hind H. unfold dispatch in H. cbv zeta in H.
     assert (Hfail: forall s d s',
@@ -1224,11 +1176,11 @@ Section Call.
                           | Some l => let! p0 := tell in let! v := k in let! p1 := tell in
                                       if N.eqb (N.of_nat (p1 - p0)) l then Ret v else Raise EMalformed
                           end
-              | None => Raise EMalformed end) s = inr (Ok d, s') -> good c (S lf) sp ae sfun d).
+              | None => Raise EMalformed end) s = inr (Ok d, s') -> good (S lf) sp ae sfun d).
     { clear H. intros s1 d1 s1' H.
       destruct ts as [|t r]; [dead H|]. destruct (tcon t && negb (cls_eqb (tcls t) Univ)); [|dead H].
       apply run_value_any in H. destruct H as (s2 & s3 & H).
-      apply (good_mono c lf (S lf)); [lia|]. apply (raw_good _ _ _ ae sfun _ _ _ H). }
+      apply (good_mono lf (S lf)); [lia|]. apply (raw_good _ _ _ ae sfun _ _ _ H). }
     destruct sp as [|T|mp].
     - exact I.
     - destruct (tagset_eqb ts (tagset_of' T) || tm_contains (tagmap_of T) ts); [|apply (Hfail _ _ _ H)].
@@ -1252,14 +1204,14 @@ Section Call.
   Qed.
 
   Lemma body_good sp ts rs ae sfun s d s' : pre c ts rs ->
-    resume (dec_body c rec lf sp ts rs ae sfun) s = inr (Ok d, s') -> good c (S lf) sp ae sfun d.
+    resume (dec_body c rec lf sp ts rs ae sfun) s = inr (Ok d, s') -> good (S lf) sp ae sfun d.
   Proof.
     intros [Hp1 Hp2] H. unfold dec_body in H. cbv zeta in H.
     assert (Hmain: forall s d s',
       resume (Mark match rs with
                    | Some len => dispatch c rec lf sp ts len sfun
                    | None => let! t := read_tag lf in let! len := read_length c in dispatch c rec lf sp (t :: ts) len sfun
-                   end) s = inr (Ok d, s') -> good c (S lf) sp ae sfun d).
+                   end) s = inr (Ok d, s') -> good (S lf) sp ae sfun d).
     { clear H. intros s1 d1 s1' H. cbn [resume] in H. destruct rs as [len|].
       - destruct Hp1 as [Hp1|Hp1]; [discriminate|].
         apply (dispatch_good _ _ _ ae sfun _ _ _ Hp1 (fun E => Hp2 (f_equal Some E)) H).
@@ -1291,12 +1243,11 @@ Qed.
 (* ------------------------------------------------------------------------------------------ *)
 
 (* whatever input is accepted under a guiding type T yields a value object of exactly that type, and
-   the unread tail is a suffix of the input; for T in the fragment the value is well-formed, except
-   that a decoder supporting the indefinite form may return a valueless tagged CHOICE *)
+   the unread tail is a suffix of the input; for T in the fragment the value is well-formed *)
 Theorem accepted_is_well_formed_gen : forall c fuel T b d tl,
   decode_with c fuel (Some T) b = Ok (d, tl) ->
   exists v, d = DV T v
-            /\ (frag T = true -> val_ofx (support_indef c) false T v = true)
+            /\ (frag T = true -> val_of T v = true)
             /\ exists used, b = used ++ tl.
 Proof.
   intros c fuel T b d tl H. pose proof (decode_with_suffix _ _ _ _ _ _ H) as Hsuf.
@@ -1308,71 +1259,19 @@ Proof.
   destruct Hg as [-> [_ Hv]]. exists v. auto.
 Qed.
 
-(* no tag directly over a CHOICE, at any depth *)
-Fixpoint no_tagged_choice (T: ty) : bool :=
-  match T with
-  | TSeq fs | TSet fs => forallb (fun f => no_tagged_choice (snd f)) fs
-  | TSeqOf t | TSetOf t => no_tagged_choice t
-  | TChoice alts => forallb no_tagged_choice alts
-  | TImp _ x | TExp _ x => match base_of x with TChoice _ => false | _ => true end && no_tagged_choice x
-  | _ => true
-  end.
-
-Lemma val_ofx_strict : forall T tg v, no_tagged_choice T = true ->
-  (tg = true -> match base_of T with TChoice _ => False | _ => True end) ->
-  val_ofx true tg T v = true -> forall tg', val_ofx false tg' T v = true.
-Proof.
-  induction T using ty_ind'; intros tg v Hn Htg Hv tg'; try exact Hv.
-  - (* SEQUENCE *)
-    destruct v; try discriminate Hv. rewrite val_ofx_seq in *. cbn [no_tagged_choice] in Hn.
-    clear Htg. revert fs0 Hv. induction H as [|[p t] fs Hh Ht IH]; intros [|ov vs] Hv; try discriminate; [reflexivity|].
-    cbn [forallb snd] in Hn. apply andb_prop in Hn. destruct Hn as [Hn1 Hn2].
-    cbn [fields_ok] in *. apply andb_prop in Hv. destruct Hv as [Hv1 Hv2]. rewrite (IH Hn2 _ Hv2), Bool.andb_true_r.
-    destruct ov; [|exact Hv1]. cbn [snd] in Hh. apply (Hh false v Hn1 ltac:(discriminate) Hv1).
-  - (* SET *)
-    destruct v; try discriminate Hv. rewrite val_ofx_set in *. cbn [no_tagged_choice] in Hn.
-    clear Htg. revert fs0 Hv. induction H as [|[p t] fs Hh Ht IH]; intros [|ov vs] Hv; try discriminate; [reflexivity|].
-    cbn [forallb snd] in Hn. apply andb_prop in Hn. destruct Hn as [Hn1 Hn2].
-    cbn [fields_ok] in *. apply andb_prop in Hv. destruct Hv as [Hv1 Hv2]. rewrite (IH Hn2 _ Hv2), Bool.andb_true_r.
-    destruct ov; [|exact Hv1]. cbn [snd] in Hh. apply (Hh false v Hn1 ltac:(discriminate) Hv1).
-  - (* SEQUENCE OF *)
-    destruct v; try discriminate Hv. cbn [val_ofx no_tagged_choice] in *.
-    rewrite forallb_forall in *. intros x Hx. apply (IHT false x Hn ltac:(discriminate) (Hv x Hx)).
-  - (* SET OF *)
-    destruct v; try discriminate Hv. cbn [val_ofx no_tagged_choice] in *.
-    rewrite forallb_forall in *. intros x Hx. apply (IHT false x Hn ltac:(discriminate) (Hv x Hx)).
-  - (* CHOICE *)
-    destruct v; try discriminate Hv. cbn [no_tagged_choice] in Hn.
-    assert (Htg': tg = false) by (destruct tg; [destruct (Htg eq_refl)|reflexivity]). subst tg. clear Htg.
-    cbn [val_ofx] in *. revert i Hv. induction H as [|a r Ha Hr IH]; intros [|i] Hv; try discriminate.
-    + cbn [forallb] in Hn. apply andb_prop in Hn. apply (Ha false v (proj1 Hn) ltac:(discriminate) Hv).
-    + cbn [forallb] in Hn. apply andb_prop in Hn. apply (IH (proj2 Hn) i Hv).
-  - (* IMPLICIT *)
-    cbn [no_tagged_choice] in Hn. apply andb_prop in Hn. destruct Hn as [Hb Hn]. cbn [val_ofx] in *.
-    apply (IHT true v Hn); [|exact Hv]. intros _. destruct (base_of T); try exact I; discriminate.
-  - (* EXPLICIT *)
-    cbn [no_tagged_choice] in Hn. apply andb_prop in Hn. destruct Hn as [Hb Hn]. cbn [val_ofx] in *.
-    apply (IHT true v Hn); [|exact Hv]. intros _. destruct (base_of T); try exact I; discriminate.
-Qed.
-
-(* the fragment on which acceptance implies strict well-formedness: DER (no indefinite form) takes
-   every tagged CHOICE; BER and CER take CHOICE types that are not directly tagged *)
-Definition frag_for (c: codec) (T: ty) : bool := frag T && (negb (support_indef c) || no_tagged_choice T).
-
+(* every codec, every type of the fragment (tagged CHOICE included) *)
 Theorem accepted_is_well_formed : forall c fuel T b d tl,
-  frag_for c T = true -> decode_with c fuel (Some T) b = Ok (d, tl) ->
+  frag T = true -> decode_with c fuel (Some T) b = Ok (d, tl) ->
   exists v, d = DV T v /\ val_of T v = true /\ exists used, b = used ++ tl.
 Proof.
-  intros c fuel T b d tl HF H. apply andb_prop in HF. destruct HF as [HF Hc].
-  destruct (accepted_is_well_formed_gen _ _ _ _ _ _ H) as (v & -> & Hv & Hsuf). specialize (Hv HF).
-  exists v. split; [reflexivity|]. split; [|exact Hsuf]. unfold val_of.
-  destruct (support_indef c); [|exact Hv]. cbn [negb orb] in Hc.
-  apply (val_ofx_strict T false v Hc ltac:(discriminate) Hv).
+  intros c fuel T b d tl HF H.
+  destruct (accepted_is_well_formed_gen _ _ _ _ _ _ H) as (v & -> & Hv & Hsuf).
+  exists v. split; [reflexivity|]. split; [exact (Hv HF)|exact Hsuf].
 Qed.
 
 (* the same for the one-shot entry point with its own choice of fuel *)
 Corollary accepted_is_well_formed_decode : forall c T b d tl,
-  frag_for c T = true -> decode c (Some T) b = Ok (d, tl) ->
+  frag T = true -> decode c (Some T) b = Ok (d, tl) ->
   exists v, d = DV T v /\ val_of T v = true /\ exists used, b = used ++ tl.
 Proof. intros c T b d tl HF H. apply (accepted_is_well_formed c (dec_fuel (Some T) b) T b d tl HF H). Qed.
 
@@ -1401,21 +1300,16 @@ Fixpoint stage3_frag (T: ty) : bool :=
   | _ => true
   end.
 
-Lemma stage3_frag_for c : forall T, stage3_frag T = true -> frag_for c T = true.
+Lemma stage3_frag_frag : forall T, stage3_frag T = true -> frag T = true.
 Proof.
-  intros T H. unfold frag_for. assert (HH: frag T = true /\ no_tagged_choice T = true /\ map_member_ok T = true
-                                           /\ match base_of T with TChoice _ => False | _ => True end).
-  { induction T using ty_ind'; try discriminate H; cbn [stage3_frag frag no_tagged_choice map_member_ok base_of] in *; auto.
-    - assert (Hall: forallb (fun f => frag (snd f)) fs = true /\ forallb (fun f => no_tagged_choice (snd f)) fs = true
-                    /\ forallb (fun f => map_member_ok (snd f)) fs = true).
-      { induction H0 as [|f fs Hf Hfs IH]; [auto|]. cbn [forallb] in *. apply andb_prop in H. destruct H as [H1 H2].
-        destruct (Hf H1) as (A & B & C & _). destruct (IH H2) as (A' & B' & C'). rewrite A, B, C, A', B', C'. auto. }
-      destruct Hall as (A & B & C). rewrite A, B, C, Bool.orb_true_r. auto.
-    - destruct (IHT H) as (A & B & _ & D). auto.
-    - destruct (IHT H) as (A & B & _ & D). auto.
-    - destruct (IHT H) as (A & B & _ & D). rewrite A, B. destruct (base_of T); auto; contradiction.
-    - destruct (IHT H) as (A & B & _ & D). rewrite A, B. destruct (base_of T); auto; contradiction. }
-  destruct HH as (A & B & _). rewrite A, B, Bool.orb_true_r. reflexivity.
+  intros T H. assert (HH: frag T = true /\ map_member_ok T = true).
+  { induction T using ty_ind'; try discriminate H; cbn [stage3_frag frag map_member_ok] in *; auto;
+      try (destruct (IHT H) as [A _]; auto).
+    assert (Hall: forallb (fun f => frag (snd f)) fs = true /\ forallb (fun f => map_member_ok (snd f)) fs = true).
+    { induction H0 as [|f fs Hf Hfs IH]; [auto|]. cbn [forallb] in *. apply andb_prop in H. destruct H as [H1 H2].
+      destruct (Hf H1) as (A & C). destruct (IH H2) as (A' & C'). rewrite A, C, A', C'. auto. }
+    destruct Hall as (A & C). rewrite A, C, Bool.orb_true_r. auto. }
+  apply HH.
 Qed.
 
 Lemma stage2_stage3 : forall T, stage2_frag T = true -> stage3_frag T = true.
@@ -1429,7 +1323,7 @@ Qed.
 Theorem accepted_is_well_formed_stage3 : forall c fuel T b d tl,
   stage3_frag T = true -> decode_with c fuel (Some T) b = Ok (d, tl) ->
   exists v, d = DV T v /\ val_of T v = true /\ exists used, b = used ++ tl.
-Proof. intros c fuel T b d tl HF. apply accepted_is_well_formed. apply stage3_frag_for. exact HF. Qed.
+Proof. intros c fuel T b d tl HF. apply accepted_is_well_formed. apply stage3_frag_frag. exact HF. Qed.
 
 Theorem accepted_is_well_formed_stage2 : forall c fuel T b d tl,
   stage2_frag T = true -> decode_with c fuel (Some T) b = Ok (d, tl) ->
@@ -1458,7 +1352,7 @@ Definition awf_ber : bytes :=
 Definition awf_der : bytes := [48;20; 2;2;0;5; 160;3;1;1;255; 129;1;7; 5;0; 49;4;12;2;104;105].
 
 Example accepted_is_well_formed_witness :
-  frag awf_T = true /\ frag_for DER awf_T = true
+  frag awf_T = true
   /\ decode BER (Some awf_T) awf_ber
      = Ok (DV awf_T (VRec [Some (VInt 5); Some (VChoice 1 (VOcts [7; 8; 9])); None;
                            Some (VChoice 1 (VOid [1; 2; 3])); Some (VList [VOcts [104; 105]])]), [99])
@@ -1483,16 +1377,17 @@ Proof. repeat split; vm_compute; reflexivity. Qed.
 
 (* ---------------- what lies outside the fragment, and why: accepted, yet ill-formed ---------------- *)
 
-(* D1. a tagged CHOICE in the indefinite form with nothing inside (a0 80 00 00) is accepted and a CHOICE
-   object without a value is returned; the same codec's encoder refuses it ('Component not chosen') *)
-Example valueless_tagged_choice_accepted :
+(* D1 (repaired in the library, and the model follows): a tagged CHOICE in the indefinite form with
+   nothing inside (a0 80 00 00) used to be accepted as a CHOICE object without a value, which the
+   encoder refuses; it is now refused by every decoder ('No alternative of CHOICE') *)
+Example valueless_tagged_choice_refused :
   let T := TExp (awf_ctx 0) (TChoice [TInt; TOcts]) in
   frag T = true
-  /\ decode BER (Some T) [160;128;0;0] = Ok (DV T (VChoice 2 VNull), [])
-  /\ decode CER (Some T) [160;128;0;0] = Ok (DV T (VChoice 2 VNull), [])
+  /\ decode BER (Some T) [160;128;0;0] = Err EMalformed
+  /\ decode CER (Some T) [160;128;0;0] = Err EMalformed
+  /\ decode DER (Some T) [160;128;0;0] = Err EMalformed
   /\ val_of T (VChoice 2 VNull) = false
-  /\ encode BER true 0 T (VChoice 2 VNull) = Err EMalformed
-  /\ decode DER (Some T) [160;128;0;0] = Err EMalformed.
+  /\ decode BER (Some T) [160;128; 4;1;7; 0;0] = Ok (DV T (VChoice 1 (VOcts [7])), []).
 Proof. repeat split; vm_compute; reflexivity. Qed.
 
 (* D2. a tagged CHOICE in the indefinite form holding two alternatives is accepted; the last one wins *)
@@ -1512,4 +1407,10 @@ Example any_in_choice_member_misplaced :
   /\ val_of T (VRec [Some (VAny [4;1;9]); Some (VInt 5)]) = false
   /\ decode DER (Some U) [49;6; 4;1;9; 2;1;5] = Ok (DV U (VRec [Some (VAny [4;1;9]); Some (VInt 5)]), [])
   /\ val_of U (VRec [Some (VAny [4;1;9]); Some (VInt 5)]) = false.
+Proof. repeat split; vm_compute; reflexivity. Qed.
+
+(* a definite-length constructed BIT STRING with no segments (23 00) is the empty bit string under BER *)
+Example empty_constructed_bits_accepted :
+  decode BER (Some TBits) [35;0] = Ok (DV TBits (VBits []), []) /\ val_of TBits (VBits []) = true
+  /\ decode BER (Some TBits) [3;0] = Err EMalformed.
 Proof. repeat split; vm_compute; reflexivity. Qed.
